@@ -162,6 +162,21 @@ def streams(rnd, tier):
             for ph in phases:
                 pre, post = context(ver, ph)
                 out.append(("v%d %s %s" % (ver, ph, desc), pre + [("data", p + post)]))
+    # Error Reports whose encapsulated length runs up to / just past the end of the PDU, PDU length at and just below
+    # the receive buffer's size (a read behind the PDU is then a read behind the buffer): never thinned out
+    for ver in (1, 0):
+        for total in (MAX, MAX - 1, MAX - 3, MAX - 4, 16, 20, 24):
+            for d in (17, 16, 15, 14, 13, 12, 11, 9, 8, 4, 1, 0):
+                el = total - d
+                if el < 0:
+                    continue
+                for tl in (0, 0xffffffff):
+                    body = struct.pack(">I", el) + bytes(rnd.randrange(1, 256) for _ in range(el)) + struct.pack(">I", tl)
+                    p = (R.hdr(ver, 10, 2, total) + body + bytes([0xff]) * MAX)[:total]
+                    ph = PHASES[(total + d) % 4] if tier == "quick" else None
+                    for ph in ([ph] if ph else PHASES):
+                        pre, post = context(ver, ph)
+                        out.append(("v%d %s error el=len-%d tl=%d len=%d" % (ver, ph, d, tl, total), pre + [("data", p + post)]))
     # truncated at every offset, the transport failing / closing / going silent / the script just ending
     for ver in (1, 0):
         full = b"".join([R.cache_response(ver, SESS)] + [L.item_pdu(ver, x, 1) for x in L.ITEMS[:3]] + [R.eod(ver, SESS, SERIAL)])
